@@ -81,3 +81,61 @@ Proof. exact sources_stay_final_sym. Qed.
 
 Check C03_work_order.
 Check C03_sources_final_when_worker_starts.
+
+(* ---- at the granularity of the cache operations (round 5; Model/Fine.v, Proofs/C03Fine.v) ----
+   A rule thread runs its command inside its last step (phase WFinish). In ANY state of ANY interleaving in which a thread is
+   about to take that step: every worker it waits for has ended and sent its tickets; every declared source exists and holds
+   the from-scratch content — now and in every continuation of the run, whoever moves next, whether or not the build succeeds
+   elsewhere; the step appends exactly the rule's script to the executed commands. Non-vacuity: C03Fine.c03_fine_ex_*. *)
+From Ruler Require Import Sched Fine FineBasic FineRule FineInv FineFacts C03Fine.
+Local Open Scope nat_scope.
+
+Theorem C03_producers_done_when_a_command_is_due : forall (w : world sym) rp goal w1 tbl pack hists blobs t' pre k ro,
+  disk_inv sym_eqb SContent w -> hist_sound_sym w -> init_dir sym w = Ok (w1, tbl) -> get_nodes sym w1 rp goal = Ok pack ->
+  Forall det_node (p_nodes pack) ->
+  read_histories sym sym_eqb SRule w1 (p_nodes pack) = Some hists ->
+  take_blobs sym SContent tbl (worker_paths pack) = (blobs, t') ->
+  let st := frun sym_eqb SContent SList pack blobs hists pre (fn_init sym (write_table sym w1 t') pack) in
+  phase_of sym st k = WFinish ro ->
+  forall d, In d (deps pack k) ->
+    phase_of sym st d = WDone /\ exists ts, nth d (fn_sent st) None = Some (Some ts).
+Proof. exact c03_fine_producers_done_sym. Qed.
+Print Assumptions C03_producers_done_when_a_command_is_due.
+
+Theorem C03_sources_final_in_every_interleaving : forall (w : world sym) rp goal w1 tbl pack hists blobs t' pre k ro n,
+  disk_inv sym_eqb SContent w -> hist_sound_sym w -> init_dir sym w = Ok (w1, tbl) -> get_nodes sym w1 rp goal = Ok pack ->
+  Forall det_node (p_nodes pack) ->
+  read_histories sym sym_eqb SRule w1 (p_nodes pack) = Some hists ->
+  take_blobs sym SContent tbl (worker_paths pack) = (blobs, t') ->
+  nth_error (p_nodes pack) (k - length (p_leaves pack)) = Some n -> length (p_leaves pack) <= k ->
+  let st0 := fn_init sym (write_table sym w1 t') pack in
+  phase_of sym (frun sym_eqb SContent SList pack blobs hists pre st0) k = WFinish ro ->
+  forall mid s, In s (r_sources (n_rule n)) ->
+    content_at (fn_world (frun sym_eqb SContent SList pack blobs hists (pre ++ mid) st0)) s <> None /\
+    content_at (fn_world (frun sym_eqb SContent SList pack blobs hists (pre ++ mid) st0)) s = content_at (scratch_world w pack) s.
+Proof. exact c03_fine_sources_final_strong_sym. Qed.
+Print Assumptions C03_sources_final_in_every_interleaving.
+
+Theorem C03_the_step_in_which_a_command_runs : forall (w : world sym) rp goal w1 tbl pack hists blobs t' pre k st',
+  disk_inv sym_eqb SContent w -> hist_sound_sym w -> init_dir sym w = Ok (w1, tbl) -> get_nodes sym w1 rp goal = Ok pack ->
+  Forall det_node (p_nodes pack) ->
+  read_histories sym sym_eqb SRule w1 (p_nodes pack) = Some hists ->
+  take_blobs sym SContent tbl (worker_paths pack) = (blobs, t') ->
+  let st0 := fn_init sym (write_table sym w1 t') pack in
+  let st_before := frun sym_eqb SContent SList pack blobs hists pre st0 in
+  fstep sym_eqb SContent SList pack blobs hists st_before k = Some st' ->
+  fn_commands st' = fn_commands st_before \/
+  exists n ro,
+    length (p_leaves pack) <= k /\ nth_error (p_nodes pack) (k - length (p_leaves pack)) = Some n /\
+    phase_of sym st_before k = WFinish ro /\
+    fn_commands st' = fn_commands st_before ++ script_lines (n_command n) /\
+    (forall d, In d (deps pack k) ->
+       phase_of sym st_before d = WDone /\ exists ts, nth d (fn_sent st_before) None = Some (Some ts)) /\
+    (forall s, In s (r_sources (n_rule n)) ->
+       content_at (fn_world st_before) s <> None /\
+       content_at (fn_world st_before) s = content_at (scratch_world w pack) s /\
+       content_at (fn_world st') s = content_at (fn_world st_before) s /\
+       forall post', content_at (fn_world (frun sym_eqb SContent SList pack blobs hists (pre ++ k :: post') st0)) s =
+                     content_at (fn_world st_before) s).
+Proof. exact c03_fine_command_reads_only_final_sources_sym. Qed.
+Print Assumptions C03_the_step_in_which_a_command_runs.
